@@ -78,13 +78,7 @@ def run(facts, rep, tier, ctx):
     # (shared with C12 R12.3c)
     for b2 in facts.bodies:
         if b2.trait_item_of == "filesystem::FileSystem" and b2.kind != "Closure" and b2.name not in o:
-            cb2 = inter.code_body(b2)
-            kinds2 = set()
-            for blk in cb2.blocks:
-                for st in blk.stmts:
-                    if st.kind == "assign" and st.rv.kind == "agg" and st.rv.agg.get("adt") == "error::VfsErrorKind":
-                        kinds2.add(st.rv.agg["variant"])
-            calls2 = [short(x.term.callee() or "?") for x in cb2.calls()]
+            kinds2, calls2 = inter.kinds_and_calls(b2)
             okd = kinds2 == {"NotSupported"} and all(c in ("From::from", "Into::into") for c in calls2)
             n += 1
             rep.ob("R18.1", b2.id, "inherited default of %s only answers NotSupported" % b2.name, okd, "" if okd else
@@ -135,6 +129,11 @@ def run(facts, rep, tier, ctx):
         if d5.split(":")[0] in ("copy_dir", "move_dir"):
             n += 1
             rep.ob("R18.1g", ob_["fn"], d5, ob_["ok"], ob_["detail"], ob_["loc"])
+    # bytes equal those of the folder: read_to_string takes what the handle yields up to its end (the embedded index records a
+    # length at construction; in debug builds the data is read from disk at each call — a read bounded by the recorded length
+    # truncates a file that has grown since), C04 R04.5
+    from . import c04 as _c04r
+    _c04r.read_to_string_rules(facts, rep, _W(facts, False), D, "R18.6r")
     # walks equal those of a physical filesystem on the same folder: the walk descends into every directory it is given
     from . import c05 as _c05w
     _c05w.walk_rules(facts, _c05w._P5(rep, "R18.6w"), _W(facts, False), D)
@@ -290,6 +289,38 @@ def run(facts, rep, tier, ctx):
         rep.ob("R18.3", b.id, "%s uses the path only through the normaliser" % m, not raw_uses, "" if not raw_uses else
                "the raw path argument is used directly by %s: the root (\"\") and the slicing are not handled by the one "
                "guarded step" % raw_uses[0][0], raw_uses[0][1] if raw_uses else b.span)
+        # ... what is looked up in the index, and asked of the embedded data, is the path that was given (normalised): not a name
+        # put together from it (`<dir>/index.html` for a directory), which serves the bytes of another entry under this path
+        made_up = []
+        for cb_ in inter.code_bodies(b):
+            trk = get_tracer(facts, cb_)
+            for s_ in inter.sites(cb_):
+                if s_.short in ("HashMap::get", "HashMap::contains_key", "HashMap::get_key_value") or s_.short.endswith("RustEmbed::get") or s_.name == "get" and (s_.trait or "").endswith("RustEmbed"):
+                    kt = norm(trk.operand(s_.args[-1]))
+                    for a_ in (kt[1] if kt[0] == "phi" else (kt,)):
+                        if any(x[0] == "call" and isinstance(x[1], str) and (short(x[1]) in ("fmt::format", "str::trim_start_matches", "str::replace", "String::push_str",
+                                                                                             "str::to_lowercase", "str::trim_end_matches", "Add::add", "str::trim_matches")
+                                                                             or short(x[1]).startswith("str::to_")) for x in walk(a_)):
+                            made_up.append((s_.short, s_.line))
+        k += 1
+        rep.ob("R18.3", b.id, "%s looks up the path it was given" % m, not made_up, "" if not made_up else
+               "%s is asked with a name computed from the path (formatted / trimmed / rewritten): the entry served is not the one the "
+               "path names on a physical folder" % made_up[0][0], made_up[0][1] if made_up else b.span)
+        # ... and the observers refuse with not-found only (private helpers included): a miss of the embedded data after a hit in the
+        # index is the same "no such file" a physical folder reports for a file that vanished
+        kinds_m, calls_m = inter.kinds_and_calls(b)
+        if m in ("open_file", "metadata"):
+            okk = kinds_m <= {"FileNotFound"}
+            k += 1
+            rep.ob("R18.3", b.id, "%s refuses with FileNotFound only" % m, okk, "" if okk else
+                   "%s can answer %s: a missing entry is not classified as not-found" % (m, sorted(kinds_m - {"FileNotFound"})), b.span)
+        if m == "read_dir":
+            # the listing hands out the children the index recorded, all of them
+            filt = [c_ for c_ in calls_m if c_ in ("Iterator::filter", "Iterator::filter_map", "Iterator::skip", "Iterator::take", "Iterator::skip_while",
+                                                   "Iterator::take_while", "Iterator::step_by", "HashSet::retain", "Vec::retain", "Iterator::nth")]
+            k += 1
+            rep.ob("R18.3", b.id, "read_dir lists the recorded children unfiltered", not filt, "" if not filt else
+                   "the listing passes through %s: entries that exists / metadata / open_file serve are not listed" % filt[0], b.span)
         # FileNotFound only on a lookup miss
         for cb in inter.code_bodies(b):
             for blk in cb.blocks:
